@@ -256,7 +256,8 @@ def cfg_line(src, root, slow, mods, now0, groups, events):
 
 def focus_case(case_or_mods, src="set"):
     """The shortest scenario that separates every wrong pace from the configured one: one group, due when the lock is
-    granted at T0; not due again exactly `shortest` seconds later; due one nanosecond after that."""
+    granted at T0; not due again 1 ns before / exactly `shortest` seconds later (a request at -1 ns is "more often than
+    the shortest configured interval"); due one nanosecond after that."""
     mods = parse_cfg(case_or_mods)["mods"] if isinstance(case_or_mods, str) else case_or_mods
     if isinstance(case_or_mods, str):
         src = parse_cfg(case_or_mods)["src"]
@@ -265,7 +266,7 @@ def focus_case(case_or_mods, src="set"):
         return None
     now = min(T0, I64_MAX - exp * NS - 10)
     return cfg_line(src, "/burrow", False, mods, now, [(1, now - exp * NS - 1)],
-                    [("k", now), ("t", now + exp * NS), ("t", now + exp * NS + 1)])
+                    [("k", now), ("t", now + exp * NS - 1), ("t", now + exp * NS), ("t", now + exp * NS + 1)])
 
 
 def _fmt_val(rng, v):
@@ -280,7 +281,7 @@ def _fmt_val(rng, v):
 
 
 def gen_mods(rng):
-    nm = rng.choice([0, 1, 1, 2, 2, 2, 2, 3, 3, 3, 4, 4])
+    nm = rng.choice([0, 1, 1, 1, 2, 2, 2, 2, 2, 3, 3, 3, 3, 4, 4, 4])
     base = rng.choice([0, 1, 2, 5, 30, 59, 60, 61, 300, 1000, LARGE_INTERVAL, MAX_INTERVAL])
     ids = rng.sample(range(1, 10), nm)
     mods = []
@@ -345,7 +346,7 @@ def cfg_tags(mods):
 
 def gen_cfg(rng, idx, scenario=True):
     """One configuration (0-4 modules) and, with scenario=True, a run of the loop it configures: lock grant at T, the
-    two ticks at T + shortest and T + shortest + 1 ns for a group that was due at T, then a random mix of ticks
+    three ticks at T + shortest -1 / 0 / +1 ns for a group that was due at T, then a random mix of ticks
     (boundary-directed), group-list refreshes, expiries, lock errors and re-acquisitions."""
     mods = gen_mods(rng)
     src = rng.choice(["set", "toml"])
@@ -380,7 +381,9 @@ def gen_cfg(rng, idx, scenario=True):
     if rng.random() < 0.15:
         evs.append(("e",)); tags.add("lockerr")
     evs.append(("k", now)); gate = True; phase = "E"; tick(now)
-    now += mi * NS
+    now += mi * NS - 1
+    evs.append(("t", now)); tick(now)
+    now += 1
     evs.append(("t", now)); tick(now)
     now += 1
     evs.append(("t", now)); tick(now)
